@@ -161,18 +161,26 @@ def nontrivial(case):
     return gen.has_same_group_overlap(case["tes"]) and "boundary" in case.get("features", ["boundary"])
 
 
+GEN = {"kernel": ("theories/Gen/GenEquiv.vo", "kernel of /repo (gene_datum.py, overlap.py, revise_annotation.py, process_genome.py windows): 15 equivalence lemmas"),
+       "cache": ("theories/Gen/GenCacheEquiv.vo", "cache decisions of /repo (verify_chromosome_h5_cache, revise_annotation, _is_current, _filter_jobs): 3 equivalence lemmas")}
+# which translated parts each property's theorems rest on
+NEEDS = {"C01": ["kernel"], "C02": ["kernel"], "C03": ["kernel"], "C04": ["kernel"], "C05": ["kernel"], "C06": ["kernel"], "C07": ["kernel"],
+         "C10": ["kernel"], "C14": ["kernel", "cache"], "C12": ["cache"], "C13": ["cache"], "C17": ["cache"]}
+
+
 def standard_obligations(chk, props_file):
-    """translate + make + hygiene + Print Assumptions of Props/<file>."""
-    ok, text, where = common.coq_build()
-    if where == "translator":
-        chk.oblige("translator: kernel of /repo within the supported grammar", False, text)
-        chk.oblige("make: full .vo build of /verif/coq", False, "not attempted")
-        return False
-    chk.oblige("translator: kernel of /repo within the supported grammar", True)
+    """translate + make (the property's own theorems and the generated equivalences they rest on) + hygiene +
+    Print Assumptions of Props/<file>. A break elsewhere in the development does not concern this property."""
+    needs = NEEDS.get(chk.pid, [])
+    targets = ["theories/Props/" + props_file + "o"] + [GEN[n][0] for n in needs]
+    ok, text, where = common.coq_build(targets)
+    for n in needs:
+        tok, msg = common.translator_status(n)
+        chk.oblige("translator: %s within the supported grammar" % GEN[n][1].split(":")[0], tok, msg)
     if not ok:
-        chk.oblige("make: full .vo build of /verif/coq (%s)" % where, False, text)
+        chk.oblige("make: full .vo build of Props/%s and what it rests on (%s)" % (props_file, where), False, text)
         return False
-    chk.oblige("make: full .vo build of /verif/coq (incl. Gen/GenEquiv.v: 15 kernel equivalence lemmas)", True)
+    chk.oblige("make: full .vo build of Props/%s and everything it imports%s" % (props_file, "".join("; " + GEN[n][1] for n in needs)), True)
     bad = common.hygiene()
     chk.oblige("hygiene: no Admitted/admit/Axiom/Parameter/Conjecture/kernel-weakening flags", not bad, "; ".join(bad))
     info, out = common.props_assumptions(props_file)
